@@ -4,7 +4,7 @@ CONSTANTS
   Atomic = TRUE
   MaxCrash = 2
   Scenario = "ready"
-  EditOps = {"none", "reset", "set", "resetsub"}
+  EditOps = {"none", "reset", "set", "resetsub", "resetcli"}
 VIEW ViewNoLast
 INVARIANT TypeOK
 INVARIANT SettingsFileComplete
